@@ -15,6 +15,7 @@ from __future__ import annotations
 
 import hashlib
 import json
+import random
 import os
 import re
 import shutil
@@ -689,11 +690,63 @@ def build_configs(ctx, cwds, langs):
     return chosen
 
 
+
+def shared_file_gather(ctx, root):
+    """Task interleavings on ONE file: calls gathered on one event loop must give the results (and leave the bytes) that
+    the same calls give when awaited one after the other -- execute() bodies have no suspension point, so calls served
+    by one loop are serial in submission order."""
+    import asyncio
+    from octave_mcp.mcp.write import WriteTool
+    base = "===D===\nSTATUS::DRAFT\nA::1\nB::2\n===END===\n"
+    pool = [dict(changes={"STATUS": "ACTIVE"}), dict(changes={"A": 5}), dict(changes={"B": {"$op": "DELETE"}}), dict(changes={"C": [1, 2]}),
+            dict(), dict(content="===D===\nSTATUS::DONE\nZ::9\n===END===\n"), dict(changes={"A": None}), dict(corrections_only=True, changes={"A": 7})]
+    tool = WriteTool()
+
+    async def run(calls, path, gathered):
+        cs = [tool.execute(target_path=path, **c) for c in calls]
+        if gathered:
+            return await asyncio.gather(*cs, return_exceptions=True)
+        out = []
+        for c in cs:
+            try:
+                out.append(await c)
+            except Exception as e:  # noqa
+                out.append(e)
+        return out
+
+    def norm(envs, path):
+        out = []
+        for e in envs:
+            if isinstance(e, BaseException):
+                out.append("EXC:" + type(e).__name__)
+            else:
+                out.append(json.dumps(_mask_ts(e), sort_keys=True, default=str).replace(path, "<F>"))
+        return out
+
+    for t in range(ctx.scale(40, 600)):
+        r = random.Random(ctx.rng.random())
+        calls = [r.choice(pool) for _ in range(r.choice([2, 2, 3, 4]))]
+        res = {}
+        for mode in ("seq", "gather"):
+            pth = os.path.join(root, f"shared_{t}_{mode}.oct.md")
+            with open(pth, "w", encoding="utf-8", newline="") as f:
+                f.write(base)
+            envs = asyncio.run(run(calls, pth, mode == "gather"))
+            with open(pth, encoding="utf-8", newline="") as f:
+                res[mode] = (norm(envs, pth), f.read())
+        ctx.count()
+        ctx.nontrivial(("shared-file", json.dumps(calls, sort_keys=True)))
+        if res["seq"] != res["gather"]:
+            ctx.property_failure({"stream": "shared-file gather", "base": base, "calls": calls, "sequential": res["seq"], "gathered": res["gather"]},
+                                 "octave_write calls gathered on one event loop against one file differ from the same calls awaited in order")
+
+
 def run(ctx):
     t_start = time.time()
     root = tempfile.mkdtemp(prefix="c06_")
     try:
         _run(ctx, root)
+        shared_file_gather(ctx, root)
     finally:
         shutil.rmtree(root, ignore_errors=True)
     ctx.extra["harness_wall_s"] = round(time.time() - t_start, 1)
